@@ -16,9 +16,9 @@ _Bool f__ZNK14vp_trompeloeil6vp_absILi1EE7matchesERKi(struct S_vp_abs_1 *self, i
 _Bool f__ZNK14vp_trompeloeil6vp_absILi2EE7matchesERKi(struct S_vp_abs_2 *self, int *v) { return abs_eval(2, v); }
 _Bool f__ZNK14vp_trompeloeil6vp_absILi3EE7matchesERKi(struct S_vp_abs_3 *self, int *v) { return abs_eval(3, v); }
 /* std::regex_search: uninterpreted; must never be reached with a null range */
-_Bool re_result; int re_calls;
+_Bool re_result; int re_calls; extern char *re_b, *re_e;
 _Bool vpx_regex_search__char_p_char_p_vp_regex_p_int(char *b, char *e, struct vp_regex *re, int flags)
-{ __CPROVER_assert(b != 0 && e != 0, "[C10] SAFETY regex_search_never_called_on_a_null_string"); re_calls++; return re_result; }
+{ __CPROVER_assert(b != 0 && e != 0, "[C10] SAFETY regex_search_never_called_on_a_null_string"); re_calls++; re_b = b; re_e = e; return re_result; }
 unsigned long strlen_result;
 unsigned long vpx_strlen__char_p(char *s) { __CPROVER_assert(s != 0, "[C10] SAFETY strlen_never_called_on_null"); return strlen_result; }
 int *vpx_op_call__vp_memfn_p_S_vp_S_p(struct vp_memfn *f, struct S_vp_S *v) { return &v->m; }
@@ -80,4 +80,13 @@ void m_re(void) { char buf[4]; char *s = nondet_bool() ? &buf[0] : (char *)0; PM
   __CPROVER_assert(r == (s != 0 && re_result), "[C10] POST re_accepts_iff_string_non_null_and_regex_found");
   __CPROVER_assert(s != 0 || re_calls == 0, "[C10] POST re_never_searches_a_null_string");
   __CPROVER_assert(s != 0, "REACH re.null"); __CPROVER_assert(0, "REACH! re"); }
+/* re() on a std::string: the searched range is [data(), data()+length()) - not up to the first NUL */
+char str_buf[8]; unsigned long str_len; char *re_b, *re_e;
+char *vpx_vp_string_data(struct vp_string *self) { return str_buf; }
+unsigned long vpx_vp_string_length(struct vp_string *self) { return str_len; }
+void m_re_string(void) { struct vp_string sv; PM_RE_STR_T1 u; u.p = &sv; PM_RE_STR_T0 m; re_result = nondet_bool(); re_calls = 0; str_len = nondet_int(); __CPROVER_assume(str_len <= 8); strlen_result = 2;
+  _Bool r = PM_RE_STR(&m, &u);
+  __CPROVER_assert(r == re_result && re_calls == 1, "[C10] POST re_on_a_string_object_accepts_iff_regex_found");
+  __CPROVER_assert(re_b == str_buf && re_e == str_buf + str_len, "[C10] POST re_searches_the_whole_string_object_data_to_data_plus_length");
+  __CPROVER_assert(0, "REACH! re_string"); }
 int main(void) { VP_ENTRY(); return 0; }
